@@ -414,6 +414,17 @@ impl<'a> Model<'a> {
                             r.msg_id, self.subs[si].name, now, r.ack_id, ack, lo
                         ),
                     );
+                } else if now < lo && !maybe_gone && maybe_acked && !unordered {
+                    // an acknowledgement of that delivery is in flight (or its outcome unknown): applied
+                    // or not, the message cannot be handed out again before the deadline
+                    self.v(
+                        "delivered_while_leased_or_acked",
+                        &["C02", "C03"],
+                        format!(
+                            "message {} handed out again on {} at t={}ns (ack {}) although its delivery (ack {}) was outstanding until at least t={}ns and nothing but an acknowledgement of it had been sent",
+                            r.msg_id, self.subs[si].name, now, r.ack_id, ack, lo
+                        ),
+                    );
                 } else if !maybe_gone {
                     self.rep.feat.expiry_redeliveries += 1;
                 }
